@@ -85,7 +85,10 @@ func (t *TargetsMetadata) AddRule(ruleName string, authorizedPrincipalIDs, ruleP
 		return tuf.ErrInvalidThreshold
 	}
 
-	if len(authorizedPrincipalIDs) < threshold {
+	// The threshold must be met by distinct principals: duplicates in the
+	// list count once.
+	principalIDs := set.NewSetFromItems(authorizedPrincipalIDs...)
+	if principalIDs.Len() < threshold {
 		return tuf.ErrCannotMeetThreshold
 	}
 
@@ -99,7 +102,7 @@ func (t *TargetsMetadata) AddRule(ruleName string, authorizedPrincipalIDs, ruleP
 		Paths:       rulePatterns,
 		Terminating: false,
 		Role: Role{
-			PrincipalIDs: set.NewSetFromItems(authorizedPrincipalIDs...),
+			PrincipalIDs: principalIDs,
 			Threshold:    threshold,
 		},
 	}
@@ -124,7 +127,10 @@ func (t *TargetsMetadata) UpdateRule(ruleName string, authorizedPrincipalIDs, ru
 		return tuf.ErrInvalidThreshold
 	}
 
-	if len(authorizedPrincipalIDs) < threshold {
+	// The threshold must be met by distinct principals: duplicates in the
+	// list count once.
+	principalIDs := set.NewSetFromItems(authorizedPrincipalIDs...)
+	if principalIDs.Len() < threshold {
 		return tuf.ErrCannotMeetThreshold
 	}
 
@@ -142,7 +148,7 @@ func (t *TargetsMetadata) UpdateRule(ruleName string, authorizedPrincipalIDs, ru
 		if delegation.Name == ruleName {
 			delegation.Paths = rulePatterns
 			delegation.Role = Role{
-				PrincipalIDs: set.NewSetFromItems(authorizedPrincipalIDs...),
+				PrincipalIDs: principalIDs,
 				Threshold:    threshold,
 			}
 		}
